@@ -123,6 +123,14 @@ example : printIndex 1203 = ['1', '2', '0', '3'] ∧ parseIndex ['0', '1', '0'] 
     parseIndex ['1', 'x'] = none ∧ measuredIndex "q10" = some 10 ∧ measuredIndex "q1x" = none ∧
     measuredIndex "quality" = none ∧ measuredIndex "q" = none := by decide +kernel
 
+/-- **TDM loop-variable names**: the index the readers take from the name `p<i>` (`is_ptype`, `int(name[1:])`) is
+`i`, for every `i`; likewise `q<i>` for measured parameters. -/
+theorem loop_variable_name_roundtrip (i : Nat) : ptypeIndex (pName i) = some i ∧ measuredIndex (qName i) = some i :=
+  ⟨ptypeIndex_pName i, measuredIndex_qName i⟩
+
+example : pName 12 = "p12" ∧ ptypeIndex "p12" = some 12 ∧ ptypeIndex "p" = none ∧ ptypeIndex "p1x" = none ∧
+    ptypeIndex "q1" = none ∧ qName 10 = "q10" := by decide +kernel
+
 /-- **`par_convert` inverts the writers' naming of atoms**: an expression written under the names of its atoms
 (measured parameter of subsystem `i` ↦ `q<i>`, free parameter ↦ its name) is mapped back to itself, for all
 subsystem indices, provided no free parameter is itself named `q<digits>` (`WellNamed`). -/
